@@ -67,7 +67,7 @@ inductive PAct where
 structure PassDef (σ : Type) where
   guard : σ → It → Bool                    -- the `while` condition
   act : σ → It → PAct
-  next : σ → Option Resp → Option σ        -- `none`: a ValueError ended the loop
+  next : σ → It → Option Resp → Option σ   -- `none`: a ValueError ended the loop; `It` = the iterator before the proposal
 
 /-- returns the iterator and whether any proposal of the pass was accepted -/
 def pLoop {σ : Type} (pd : PassDef σ) (o : Oracle) (clk : Clock) (stopAt : Option Nat) :
@@ -79,13 +79,13 @@ def pLoop {σ : Type} (pd : PassDef σ) (o : Oracle) (clk : Clock) (stopAt : Opt
     match pd.act st it with
     | .fail => ({ it with internalError := true }, any)
     | .skip =>
-      match pd.next st none with
+      match pd.next st it none with
       | some st' => pLoop pd o clk stopAt fuel st' it any
       | none => (it, any)
     | .propose c mk =>
       let r := it.try o c mk
       let any' := any || (r.1 == .accepted)
-      match pd.next st (some r.1) with
+      match pd.next st it (some r.1) with
       | some st' => pLoop pd o clk stopAt fuel st' r.2 any'
       | none => (r.2, any')
 
@@ -117,7 +117,7 @@ def aroundNext (cs : Nat) (st : AroundSt) : Option Resp → Option AroundSt
 def aroundDef (cs numChunks : Nat) : PassDef AroundSt where
   guard st it := st.chunkStart + cs < it.best.len
   act st it := .propose (aroundCand cs st it) (aroundMk cs numChunks st it)
-  next := aroundNext cs
+  next st _ r := aroundNext cs st r
 
 /-- one pass of `MinimizeSurroundingPairs.try_removing_chunks` -/
 def aroundLoop (o : Oracle) (clk : Clock) (stopAt : Option Nat) (cs numChunks : Nat) :
@@ -213,7 +213,7 @@ def balNext (cs : Nat) (curly square normal : List Int) (st : BalSt) : Option Re
 def balDef (cs numChunks : Nat) (curly square normal : List Int) : PassDef BalSt where
   guard st it := st.chunkStart < it.best.len
   act := balAct cs numChunks curly square normal
-  next := balNext cs curly square normal
+  next st _ r := balNext cs curly square normal st r
 
 def balLoop (o : Oracle) (clk : Clock) (stopAt : Option Nat) (cs numChunks : Nat)
     (curly square normal : List Int) : Nat → BalSt → It → Bool → It × Bool :=
